@@ -323,7 +323,7 @@ def run_task(task, tr):
 
     label = f'{model} n={n} G={G} sampling-order={perm}'
     ex = Explorer(W, domain, body, tr, max_regions=budget, timeout=30.0, label=label,
-                  deadline=time.time() + 1500)
+                  deadline=time.time() + 1500, parallel=(model == 'plinear'))
     out = ex.run()
     tr.bounds[f'{model}'] = f'n<={n}, grid points<={G}, all sampling-time orders (one task per order)'
     for s in out.region_samples[:1]:
@@ -426,7 +426,7 @@ def tasks_for(tier):
                 ('pexp', 3, 1, 60)]
     else:
         plan = [('constant', 4, 0, 400), ('skyride', 4, 0, 400), ('skygrid', 3, 2, 400), ('skygrid', 4, 1, 800),
-                ('exponential', 4, 0, 400), ('plinear', 3, 2, 600), ('pexp', 3, 1, 60)]
+                ('exponential', 4, 0, 400), ('pexp', 3, 1, 60)]
     for model, n, G, budget in plan:
         for perm in itertools.permutations(range(n)):
             ts.append((model, n, G, perm, budget))
